@@ -185,5 +185,56 @@ pub open spec fn v2l_accept_cond(token: Seq<char>, k: Seq<u8>, f: Seq<u8>) -> bo
     &&& v2l_open(token, k, f) is Some
 }
 pub open spec fn v2l_plain(token: Seq<char>, k: Seq<u8>, f: Seq<u8>) -> Seq<u8> { v2l_open(token, k, f)->Some_0 }
+
+// ---- public purposes: payload = message ++ signature -------------------------------------------
+pub open spec fn pub_msg(token: Seq<char>, siglen: int) -> Seq<u8> { let d = token_payload(token); d.subrange(0, d.len() - siglen) }
+pub open spec fn pub_sig(token: Seq<char>, siglen: int) -> Seq<u8> { let d = token_payload(token); d.subrange(d.len() - siglen, d.len() as int) }
+// v2.public / v4.public (Ed25519)
+pub open spec fn v2p_header() -> Seq<u8> { "v2.public.".spec_bytes() }
+pub open spec fn v2p_pre(m: Seq<u8>, f: Seq<u8>) -> Seq<u8> { pae(seq![v2p_header(), m, f]) }
+pub open spec fn v2p_token(sk: Seq<u8>, m: Seq<u8>, f: Seq<u8>) -> Seq<char> {
+    token_text("v2.public."@, m + ed25519_sign(sk, v2p_pre(m, f)), f)
+}
+pub open spec fn v2p_accept_cond(token: Seq<char>, pk: Seq<u8>, f: Seq<u8>) -> bool {
+    &&& token_parts_ok(token, "v2.public."@, f)
+    &&& token_payload(token).len() >= 64
+    &&& pk.len() == 32 && ed25519_pk_ok(pk)
+    &&& ed25519_verify(pk, v2p_pre(pub_msg(token, 64), f), pub_sig(token, 64))
+}
+pub open spec fn v4p_header() -> Seq<u8> { "v4.public.".spec_bytes() }
+pub open spec fn v4p_pre(m: Seq<u8>, f: Seq<u8>, i: Seq<u8>) -> Seq<u8> { pae(seq![v4p_header(), m, f, i]) }
+pub open spec fn v4p_token(sk: Seq<u8>, m: Seq<u8>, f: Seq<u8>, i: Seq<u8>) -> Seq<char> {
+    token_text("v4.public."@, m + ed25519_sign(sk, v4p_pre(m, f, i)), f)
+}
+pub open spec fn v4p_accept_cond(token: Seq<char>, pk: Seq<u8>, f: Seq<u8>, i: Seq<u8>) -> bool {
+    &&& token_parts_ok(token, "v4.public."@, f)
+    &&& token_payload(token).len() >= 64
+    &&& pk.len() == 32 && ed25519_pk_ok(pk)
+    &&& ed25519_verify(pk, v4p_pre(pub_msg(token, 64), f, i), pub_sig(token, 64))
+}
+// v3.public (ECDSA P-384 / SHA-384, compressed public key prepended to the PAE)
+pub open spec fn v3p_header() -> Seq<u8> { "v3.public.".spec_bytes() }
+pub open spec fn v3p_pre(pkc: Seq<u8>, m: Seq<u8>, f: Seq<u8>, i: Seq<u8>) -> Seq<u8> { pae(seq![pkc, v3p_header(), m, f, i]) }
+pub open spec fn v3p_signed(token: Seq<char>, sk: Seq<u8>, m: Seq<u8>, f: Seq<u8>, i: Seq<u8>) -> bool {
+    exists|sig: Seq<u8>| #[trigger] p384_sign_rel(sk, v3p_pre(p384_pk_of_sk(sk), m, f, i), sig) && token == token_text("v3.public."@, m + sig, f)
+}
+pub open spec fn v3p_accept_cond(token: Seq<char>, pk: Seq<u8>, f: Seq<u8>, i: Seq<u8>) -> bool {
+    &&& token_parts_ok(token, "v3.public."@, f)
+    &&& token_payload(token).len() >= 96
+    &&& p384_pk_ok(pk)
+    &&& p384_sig_ok(pub_sig(token, 96))
+    &&& p384_verify(p384_compress(pk), v3p_pre(p384_compress(pk), pub_msg(token, 96), f, i), pub_sig(token, 96))
+}
+// v1.public (RSASSA-PSS / SHA-384, 2048-bit)
+pub open spec fn v1p_header() -> Seq<u8> { "v1.public.".spec_bytes() }
+pub open spec fn v1p_pre(m: Seq<u8>, f: Seq<u8>) -> Seq<u8> { pae(seq![v1p_header(), m, f]) }
+pub open spec fn v1p_signed(token: Seq<char>, pkcs8: Seq<u8>, m: Seq<u8>, f: Seq<u8>) -> bool {
+    exists|sig: Seq<u8>| #[trigger] rsa_pss_sign_rel(pkcs8, v1p_pre(m, f), sig) && sig.len() == 256 && token == token_text("v1.public."@, m + sig, f)
+}
+pub open spec fn v1p_accept_cond(token: Seq<char>, pk: Seq<u8>, f: Seq<u8>) -> bool {
+    &&& token_parts_ok(token, "v1.public."@, f)
+    &&& token_payload(token).len() >= 256
+    &&& rsa_pss_verify(pk, v1p_pre(pub_msg(token, 256), f), pub_sig(token, 256))
+}
 }
 }
